@@ -86,7 +86,7 @@ func call(o op) int {
 	case 18:
 		return lib.CondQueue(o.arg)
 	case 19:
-		return lib.SpinHandoff(o.arg) + lib.Idioms(o.arg%5+1) - 10*(o.arg%5+1)
+		return lib.SpinHandoff(o.arg) + lib.Idioms(o.arg%5+1) - 14*(o.arg%5+1)
 	// defective
 	case 20:
 		return lib.RacyCounter()
